@@ -23,6 +23,21 @@ Proof.
   apply price_round_trip. unfold G. lia.
 Qed.
 
+(* CalculatePriceToTick on its own: the bucket's tick or its successor - this is what the +-1 correction relies on *)
+Lemma price_to_tick_near_main u p pu pu1 : MinInitializedTickV2 <= u < MaxTick ->
+  tick_to_price u = Ok pu -> tick_to_price (u + 1) = Ok pu1 -> pu <= p < pu1 ->
+  calculate_price_to_tick p = Ok u \/ calculate_price_to_tick p = Ok (u + 1).
+Proof.
+  intros Hu E0 E1 Hp. consts. rewrite tick_to_price_floor in E0, E1 by lia.
+  inversion E0; inversion E1; subst. apply price_to_tick_near; unfold G; lia.
+Qed.
+Lemma price_to_tick_floor_refuted : exists u p pu pu1, MinInitializedTickV2 <= u < MaxTick /\
+  tick_to_price u = Ok pu /\ tick_to_price (u + 1) = Ok pu1 /\ pu <= p < pu1 /\ calculate_price_to_tick p <> Ok u.
+Proof.
+  exists (30 * G + 4), (price_of (30 * G + 5) - 10 ^ 18), (price_of (30 * G + 4)), (price_of (30 * G + 5)).
+  vm_compute. repeat split; try reflexivity; intro; discriminate.
+Qed.
+
 (* bucket mapping, lower edge inclusive, upper edge exclusive *)
 Lemma bucket_main t s st st1 : MinInitializedTick <= t < MaxTick ->
   tick_to_sqrt_price t = Ok st -> tick_to_sqrt_price (t + 1) = Ok st1 -> st <= s < st1 ->
